@@ -614,7 +614,9 @@ class triangular_grid(lattice):
             self.l_y,
             self.shape,
             self.sites,
+            self.n_sites,
             self.coord_num,
+            self.open_x,
         )
 
     @classmethod
